@@ -129,11 +129,71 @@ def p_rename(e, which):
     e.explore(prog, 'rename')
 
 
-PROGRAMS = [('p_reorder', m) for m in itertools.product([False, True], repeat=4)] + [('p_rename', w) for w in ('swap', 'cycle', 'fresh', 'chain')]
+def p_embed(e, own_objects):
+    """embed(subgrid, connection): the result is well formed, the embedding connection is
+    recorded on the result's own blocks, and total volume is conserved; None exactly when the
+    subgrid does not fit or names clash.  The connection may name its blocks by objects that
+    are not the grids' own (copies / placeholders with the right names)."""
+    tag = '[own block objects]' if own_objects else '[placeholder block objects]'
+    def prog(e):
+        g = e.load_module('t2grids').globals
+        def grid(names, pre):
+            gr = Obj(g['t2grid'])
+            e.call(e.get_function('t2grids.t2grid.empty'), [gr])
+            rt = e.call(g['rocktype'], [], {'name': pre + 'rck'})
+            e.call(e.get_function('t2grids.t2grid.add_rocktype'), [gr, rt])
+            for n in names:
+                e.call(e.get_function('t2grids.t2grid.add_block'), [gr, e.call(g['t2block'], [n, e.sym_real('vol_' + n.strip().replace(' ', '_'), 0), rt])])
+            con = e.call(g['t2connection'], [[gr.fields['block'][names[0]], gr.fields['block'][names[1]]], 1, [e.sym_real(pre + 'd1', 0), e.sym_real(pre + 'd2', 0)], e.sym_real(pre + 'ar', 0), 0])
+            e.call(e.get_function('t2grids.t2grid.add_connection'), [gr, con])
+            return gr, rt
+        host, hrt = grid(['  a 1', '  b 1'], 'h')
+        sub, srt = grid(['  c 1', '  d 1'], 's')
+        hb, sb = host.fields['block']['  a 1'], sub.fields['block']['  c 1']
+        if own_objects:
+            ends = [hb, sb]
+        else:
+            ends = [e.call(g['t2block'], ['  a 1', hb.fields['volume'], hrt]), e.call(g['t2block'], ['  c 1', sb.fields['volume'], srt])]
+        con = e.call(g['t2connection'], [ends, 2, [e.sym_real('e1', 0), e.sym_real('e2', 0)], e.sym_real('ea', 0), 0])
+        before = sum(to_real(b.fields['volume']) for b in host.fields['blocklist'])
+        subvol = sum(to_real(b.fields['volume']) for b in sub.fields['blocklist'])
+        hostvol0 = to_real(hb.fields['volume'])
+        res = e.call(e.get_function('t2grids.t2grid.embed'), [host, sub, con])
+        if res is None:
+            e.prove(subvol >= hostvol0, 'post:embed_refuses_only_a_subgrid_that_does_not_fit' + tag)
+            return
+        e.prove(subvol < hostvol0, 'post:embed_refuses_only_a_subgrid_that_does_not_fit' + tag)
+        e.prove(wf(res), 'post:grid_well_formed_after_embed' + tag)
+        e.prove(_valid(e, sum(to_real(b.fields['volume']) for b in res.fields['blocklist']) == before), 'post:embed_conserves_total_volume' + tag)
+        key = ('  a 1', '  c 1')
+        e.prove(res.fields['connection'].get(key) is con and all(key in res.fields['block'][n].fields['connection_name'] for n in key),
+                'post:embedding_connection_recorded_on_the_result_blocks' + tag)
+    e.explore(prog, 'embed')
+
+
+PROGRAMS = [('p_embed', True), ('p_embed', False)] + [('p_reorder', m) for m in itertools.product([False, True], repeat=4)] + [('p_rename', w) for w in ('swap', 'cycle', 'fresh', 'chain')]
 
 
 def replay(obname, model, result):
     prog = result['program']
+    if prog == 'p_embed':
+        return ("from t2grids import *\n"
+                "own = %r\n"
+                "def grid(names, pre):\n"
+                "    g = t2grid(); rt = rocktype(name=pre + 'rck'); g.add_rocktype(rt)\n"
+                "    for k, n in enumerate(names): g.add_block(t2block(n, 10. + k if pre == 'h' else 1. + k, rt))\n"
+                "    g.add_connection(t2connection([g.block[names[0]], g.block[names[1]]], 1, [1., 2.], 3., 0.)); return g, rt\n"
+                "host, hrt = grid(['  a 1', '  b 1'], 'h'); sub, srt = grid(['  c 1', '  d 1'], 's')\n"
+                "ends = [host.block['  a 1'], sub.block['  c 1']] if own else [t2block('  a 1', 10., hrt), t2block('  c 1', 1., srt)]\n"
+                "con = t2connection(ends, 2, [0.5, 0.5], 2., 0.)\n"
+                "before = sum(b.volume for b in host.blocklist)\n"
+                "res = host.embed(sub, con)\n"
+                "names = [b.name for b in res.blocklist]\n"
+                "ok = res is not None and abs(sum(b.volume for b in res.blocklist) - before) < 1e-12 and all(res.block[n] is b for n, b in zip(names, res.blocklist))\n"
+                "keys = [tuple(b.name for b in c.block) for c in res.connectionlist]\n"
+                "ok = ok and all(res.connection.get(k) is c and all(res.block.get(b.name) is b for b in c.block) for k, c in zip(keys, res.connectionlist))\n"
+                "ok = ok and all(b.connection_name == set(k for k in keys if b.name in k) for b in res.blocklist)\n"
+                "detail = 'connections %%r; per-block records %%r' %% (keys, dict((b.name, sorted(b.connection_name)) for b in res.blocklist))\n") % (result['arg'],)
     if prog == 'p_reorder':
         mask = result['arg']
         return ("from t2grids import *\nimport numpy as np\n"
